@@ -21,46 +21,49 @@ func main() {
 				tier = os.Args[i+1]
 			}
 		}
+		if os.Args[2] == "ALL" {
+			os.Exit(runAll(tier))
+		}
 		os.Exit(runCheck(os.Args[2], tier))
 	case "explain":
 		os.Exit(explain(os.Args[2]))
 	case "load":
-		p, err := Load("/repo", nil)
+		p, err := Load(repoDir(), nil)
 		if err != nil {
 			fmt.Fprintln(os.Stderr, err)
 			os.Exit(2)
 		}
 		fmt.Printf("packages=%d functions=%d\n", len(p.Pkgs), len(p.AllFuncs))
 	case "dump-layouts":
-		p, err := Load("/repo", nil)
+		p, err := Load(repoDir(), nil)
 		if err != nil {
 			fmt.Fprintln(os.Stderr, err)
 			os.Exit(2)
 		}
 		dumpLayouts(p)
 	case "dump-wire":
-		p, err := Load("/repo", nil)
+		p, err := Load(repoDir(), nil)
 		if err != nil {
 			fmt.Fprintln(os.Stderr, err)
 			os.Exit(2)
 		}
 		dumpWire(p)
 	case "walk":
-		p, err := Load("/repo", nil)
+		p, err := Load(repoDir(), nil)
 		if err != nil {
 			fmt.Fprintln(os.Stderr, err)
 			os.Exit(2)
 		}
 		dumpWalk(p, os.Args[2], os.Args[3], len(os.Args) > 4)
 	case "dump-kinds":
-		p, err := Load("/repo", nil)
+		p, err := Load(repoDir(), nil)
 		if err != nil {
 			fmt.Fprintln(os.Stderr, err)
 			os.Exit(2)
 		}
 		dumpKinds(p)
 	case "dump-ops":
-		p, err := Load("/repo", nil)
+		p, err := Load(repoDir(), nil)
 		if err != nil {
 			fmt.Fprintln(os.Stderr, err)
 			os.Exit(2)
@@ -73,4 +76,13 @@ func main() {
 	default:
 		os.Exit(2)
 	}
+}
+
+// repoDir is /repo. The self-test scripts, which run the checks on deliberately modified copies of the
+// repository in parallel, point UHLINT_REPO at a scratch worktree; the registered checks never set it.
+func repoDir() string {
+	if d := os.Getenv("UHLINT_REPO"); d != "" {
+		return d
+	}
+	return "/repo"
 }
